@@ -11,25 +11,49 @@ NOTE = ('trusted: A-real (floats as reals), the executable library contracts of 
         '(cross-checked against CPython+torch on every run), z3/cvc5, the pyvc interpreter; see evidence.assumptions for the per-property list')
 
 CLAIMED = {
-    'C15': ('proof', 'All clauses of the statement are post-conditions of the real CostSpec.__getitem__/__setitem__: loop-free proofs for every '
-            'registration sequence of length 0..4 with symbolic constraint verdicts, plus an unbounded-length proof through a loop invariant '
-            'on the scan. Order independence follows because the post-conditions mention only the set of registrations.', '3 C15'),
-    'C19': ('proof', 'Post-conditions of the real BaseRegularizer.__call__ and DUCCIO.__init__/__call__ over all real costs, targets, strengths '
-            'and integer schedule positions (non-negativity, zero iff within target, monotone in each excess, schedule shape, definedness of '
-            'derived strengths); number of metrics 1..3(4) enumerated, n_epochs enumerated for the non-linear schedule clauses.', '3 C19'),
-    'C16': ('other', 'Relational and post-condition clauses (defined, >= 0, > 0 for non-empty layers, monotone in size and bit-widths, depthwise = '
-            'generic per group, exact rounding helpers with pass-through gradients, rejection of unsupported precisions) of every function '
-            'registered in params/ops/*_bit/*_no_bias/gap8/mpic specs over all valid relaxed layer descriptions. NE16 and DIANA are listed as '
-            'not decided in the evidence until their obligations are added.', '3 C16'),
-    'C13': ('proof', 'Element-wise post-conditions of the real quantizer kernels (range, integrality, fq = int x reported scale, monotone, error '
-            'below one step, truncation, zero-scale bias) over all real inputs, for bits 0,2..8 (quick: 0,2,4,8).', '3 C13'),
-    'C10': ('other', 'Post-conditions of the real samplers and selectors for all coefficient vectors without ties and temperatures in [0.05,20], '
-            'from an arbitrary previous state (induction over histories of option updates / forward passes); lengths 1..4 enumerated. One '
-            'known finding (SuperNet eval-mode soft sampling).', '3 C10'),
+    'C01': ('other', 'Per layer: producer -> [causal pad] -> searchable PIT layer is exported (real export code in a minimal fx graph) and the exported chain is '
+            'proved equal to the masked chain on every input for every reachable mask pattern, all real weights / BatchNorm statistics / mask parameters; '
+            'kernel sizes, dilations, strides, BatchNorm modes enumerated. Composition over whole architectures is not decided.', '3 C01'),
+    'C02': ('other', 'Per layer, per-layer search (as the statement restricts): eval-mode forward of MPSConv2d/Conv1d/Linear/Identity == forward of the Quant* layer '
+            'export() builds, on every input; exported precisions == summary(); trained quantizer objects re-used. Wiring across layers not decided.', '3 C02'),
+    'C04': ('other', 'What PIT layers show the cost function (discrete = exported sizes; open masks = original sizes for k = 1..16), params cost = parameter count of '
+            'the exported layer, and PIT._get_single_cost summing the right layers / invocations (shared, per-invocation, full_cost, dict specs).', '3 C04'),
+    'C05': ('other', 'Names and values MPS layers hand to cost functions, exact bit-cost under one-hot sampling (per-layer search), MPS._get_single_cost aggregation; '
+            'per-channel cost with 0-bit is a recorded known finding.', '3 C05'),
+    'C06': ('other', 'SuperNet cost == coefficient-weighted mix of branch costs per invocation (+ fixed layers), between min and max for every probability vector and '
+            'for the real sampler on any raw coefficients, == selected branch under one-hot. Export clause not decided (fx).', '3 C06'),
+    'C07': ('other', 'BatchNorm fusing / folding algebra of remove_bn_inplace and fuse_bn_inplace for all bias/affine combinations, weight copy, open-mask forward '
+            'identity, user objects untouched, mode restoration by PIT.__init__. Whole-model clauses not decided.', '3 C07'),
+    'C08': ('proof', 'For ALL real architectural parameters every PIT layer keeps >= 1 feature, >= 1 tap, dilation >= 1; frozen maskers keep full size; exported sizes == '
+            'summary(); export is defined. Kernel sizes 1..9 (quick) / 1..16, dilations, strides, widths enumerated. Which groups are frozen (graph pass) is a hypothesis.', '3 C08'),
+    'C09': ('other', 'Contracts of the four features calculators (sum over concat of searchable / fixed inputs, flatten multiplier and mask expansion, propagation), '
+            'their discrete consistency, the frame of register(), and the channel-axis test of is_features_concatenate. The BFS over DAGs is not decided.', '3 C09'),
+    'C10': ('other', 'Post-conditions of the real samplers and selectors for all coefficient vectors without ties and temperatures in [0.05,20], from an arbitrary '
+            'previous state (induction over histories of option updates / forward passes); lengths 1..4 enumerated. One known finding (SuperNet eval-mode soft sampling).', '3 C10'),
     'C11': ('proof', 'Exact-effect post-conditions of train_nas_only/train_net_only/train_net_and_nas, the PIT train_features/rf/dilation and '
             'discrete_cost switches and every update_softmax_options level, from an arbitrary (symbolic) previous trainability / option state, '
             'plus preservation of the frozen-mask invariant and the partition of parameters: induction over all call sequences on one '
             'representative wrapper per method (structure concrete, convert() under an assumed contract).', '3 C11'),
+    'C12': ('other', 'Composed: cost functions defined / non-negative / monotone (C16 harnesses), PIT effective sizes monotone in mask magnitudes in both cost modes, open '
+            'masks = original, pass-through backward bodies of all straight-through functions. Clauses about autograd gradients are not decided.', '3 C12'),
+    'C13': ('proof', 'Element-wise post-conditions of the real quantizer kernels (range, integrality, fq = int x reported scale, monotone, error '
+            'below one step, truncation, zero-scale bias) over all real inputs, for bits 0,2..8 (quick: 0,2,4,8).', '3 C13'),
+    'C14': ('other', 'binary_search (unbounded, recursive contract), range clauses of MATCH _integer_approximation, dilation padding, floor-based requantisation range, '
+            'definedness of the MATCH constructors; two known findings (bias-free layers, axis-1 dilation). MAUPITI and the graph rewrite are not decided.', '3 C14'),
+    'C15': ('proof', 'All clauses of the statement are post-conditions of the real CostSpec.__getitem__/__setitem__: loop-free proofs for every '
+            'registration sequence of length 0..4 with symbolic constraint verdicts, plus an unbounded-length proof through a loop invariant '
+            'on the scan. Order independence follows because the post-conditions mention only the set of registrations.', '3 C15'),
+    'C16': ('other', 'Relational and post-condition clauses (defined, >= 0, > 0 for non-empty layers, monotone in size and bit-widths, depthwise = '
+            'generic per group, exact rounding helpers with pass-through gradients, rejection of unsupported precisions) of every function '
+            'registered in the cost specifications over all valid relaxed layer descriptions; see evidence.not_decided for what is left open.', '3 C16'),
+    'C18': ('other', 'Write frames of cost / get_cost / summary / cost_specification setter / export() of the three wrappers against the observables of the statement; '
+            'specification switch-and-back; export twice. The conversion inside export() is an assumed contract.', '3 C18'),
+    'C19': ('proof', 'Post-conditions of the real BaseRegularizer.__call__ and DUCCIO.__init__/__call__ over all real costs, targets, strengths '
+            'and integer schedule positions (non-negativity, zero iff within target, monotone in each excess, schedule shape, definedness of '
+            'derived strengths); number of metrics 1..3(4) enumerated, n_epochs enumerated for the non-linear schedule clauses.', '3 C19'),
+    'C20': ('other', 'Post-condition of the real _reassign_precisions for all score matrices without ties and all target compositions, sizes up to 3x2 / 2x3 (quick), '
+            '3x3 / 2x4 (thorough): bounded in size, exhaustive in values; failing configurations of the unchanged tree are known findings. '
+            'optimize_prec_assignment is not decided.', '3 C20'),
 }
 NA = {
     'C03': 'graph surgery on the torch.fx IR (export_graph): no contract on a plinio function can state it without a hand model of fx; its two '
